@@ -363,6 +363,10 @@ impl Property for C04 {
             Stream::new("expression-form-x-position-table", nforms * npos, true, move |i| format!("expr:{}:{}", i % nforms, i / nforms)),
             Stream::new("random-programs-avoid-profile", tier.pick(12_000, 600_000), false, move |i| format!("rand:avoid:{}", mix(&[seed, 0xC04, 1, i]))),
             Stream::new("random-programs-full-profile", tier.pick(6_000, 300_000), false, move |i| format!("rand:full:{}", mix(&[seed, 0xC04, 2, i]))),
+            {
+                let cases: Vec<String> = (0..text_form_count()).filter_map(text_form_case).collect();
+                Stream::new("text-forms-beyond-the-model", cases.len() as u64, true, move |i| cases[i as usize].clone())
+            },
         ]
     }
     fn check(&self, input: &str, obs: &mut Obs) {
@@ -462,6 +466,47 @@ impl Property for C04 {
     }
     fn mandatory_classes(&self, _tier: Tier) -> Vec<&'static str> {
         vec!["context:top", "context:else-single", "context:case-body", "position:initializer", "position:gate-parameter"]
+    }
+}
+
+/// Valid forms that the statement model does not print: I/O declarations of array types, array
+/// declarations and array reference parameters, and the white space right after the `pragma` /
+/// annotation keyword (the OpenQASM 3 lexer grammar separates it from the text with `[ \t]+`).
+const TEXT_FORMS: &[(&str, &str)] = &[
+    ("io-array", "input array[int[8], 4] a;"),
+    ("io-array", "output array[float[64], 2, 3] m;"),
+    ("io-array", "input array[bool, 2] b;"),
+    ("io-array", "input array[complex[float[32]], 2] c;"),
+    ("io-array", "output array[angle[16], 3] g;"),
+    ("io-array", "input array[uint, 1] u;"),
+    ("io-array", "input array[duration, 2] d;"),
+    ("array-decl", "array[int[8], 4] a;"),
+    ("array-decl", "array[uint[16], 2, 2] a = {{1, 2}, {3, 4}};"),
+    ("array-decl", "array[float[32], 3] a = {1.0, 2.0, 3.0};"),
+    ("array-ref-param", "def f(readonly array[int[8], 4] a) { }"),
+    ("array-ref-param", "def f(mutable array[int[8], #dim = 2] a) { }"),
+    ("array-ref-param", "def f(readonly array[float[64], 2, 3] a, int n) -> int { return n; }"),
+    ("pragma-keyword-gap", "pragma§user alpha 2.0\nint x;"),
+    ("pragma-keyword-gap", "#pragma§user alpha 2.0\nint x;"),
+    ("pragma-keyword-gap", "int x;\npragma§note\nint y;"),
+    ("annotation-keyword-gap", "@ann§word 1 2\nint x;"),
+];
+const TEXT_GAPS: &[(&str, &str)] = &[("blank", " "), ("tab", "\t"), ("two-blanks", "  "), ("blank-tab", " \t"), ("tab-blank", "\t ")];
+const TEXT_SEPS: &[(&str, &str)] = &[("blank", " "), ("tab", "\t"), ("line-break", "\n"), ("crlf", "\r\n"), ("block-comment", " /* c */ "), ("line-comment", " // c\n")];
+
+fn text_form_count() -> u64 {
+    (TEXT_FORMS.len() * TEXT_GAPS.len().max(TEXT_SEPS.len())) as u64
+}
+
+fn text_form_case(i: u64) -> Option<String> {
+    let (label, form) = TEXT_FORMS[i as usize % TEXT_FORMS.len()];
+    let v = i as usize / TEXT_FORMS.len();
+    if form.contains('§') {
+        let (g, gap) = TEXT_GAPS.get(v)?;
+        Some(format!("lit:{label}/{g}|{}", form.replace('§', gap)))
+    } else {
+        let (sname, sep) = TEXT_SEPS.get(v)?;
+        Some(format!("lit:{label}/{sname}|{}", form.replace(' ', sep)))
     }
 }
 
